@@ -184,7 +184,9 @@ def override_stream(ctx):
         want = ovbins.expected(s)
         if out != want:
             bad += 1
-            ctx.violation("override-not-called", "overriding %s: observed %s, required %s" % (", ".join(s) or "nothing", out[:300], want[:300]),
+            diff = [(x, y) for x, y in zip(out.split("; "), want.split("; ")) if x != y][:1] or [(out[:200], want[:200])]
+            cls = "proxy-error-not-surfaced" if diff[0][0].startswith("p_") else "override-not-called"
+            ctx.violation(cls, "overriding %s: observed %s, required %s" % (", ".join(s) or "nothing", diff[0][0][:300], diff[0][1][:300]),
                           {"program": ovbins.source_of(s), "observed": out, "required": want})
     ctx.add_stream("L2-mt-overrides", len(ovbins.SETS), len(ovbins.SETS), samples=[ovbins.name_of(s) for s in ovbins.SETS[:3]], override_sets=[",".join(s) for s in ovbins.SETS], oracle_failures=bad,
                    note="each program: instantiate, exec (emitting a sub-message to itself with reply_always), sudo, migrate, query on a multitest chain; which overrides and which handlers ran")
